@@ -161,9 +161,9 @@ def float_strings(case):
     if case["op"] == "run":
         decls = list(all_decls(case["root"]))
         argv = case["argv"]
-    elif case["op"] in ("compile", "match"):
+    elif case["op"] in ("compile", "match", "sentence"):
         decls = case["decls"]
-        argv = case.get("args", [])
+        argv = case.get("args", []) + case.get("argv", [])
     else:
         return set()
     fd = [d for d in decls if d["kind"] in ("float", "floats")]
@@ -199,6 +199,10 @@ def model_line(case, floats):
     elif op == "run":
         v = case.get("version")
         body = ["run", [fl, env, [] if not v else [v["name"], v["text"]], sx_cmd(case["root"]), case["argv"]]]
+    elif op == "sentence":
+        t = case.get("target")
+        body = ["sentence", [fl, env, [sx_decl(d) for d in case["decls"]], case["spec"], case["argv"],
+                             [] if t is None else ["t"] + [[k, vs] for k, vs in t]]]
     else:
         raise ValueError(op)
     return "%s\t%s\n" % (case["id"], sx(body))
